@@ -9,7 +9,7 @@ from harness.universes import words_onefactor as OF
 ID = "C01"
 TITLE = "returned specifications count the start class correctly"
 COQ_PROPS = "Props/C01.v"
-COQ_RUN = ("Spec.CountRun", "run_c01")
+COQ_RUN = ("Spec.CountRunDec", "run_c01d")   # = run_c01 + the verdicts of the deciders (C01_run_extends)
 GEN_TARGETS = ["compositions", "quotient_parent_shift"]
 N = {"quick": 6000, "thorough": 30000}
 CASE_CPU_SECONDS = 240
@@ -41,27 +41,45 @@ TRUSTED = [
     "which constructor form a rule has, the labels, the dictionaries and the declared shifts are read off the real "
     "rule objects by trusted Python; for an EquivalencePathRule the declared dependency is written as (last class, "
     "shift 0) instead of rule.shifts(), for an EquivalenceRule whose shifts() has the wrong length the original "
-    "rule's shift is used",
+    "rule's shift is used. The internal consistency of what it produces (dependencies = children in order, declared "
+    "shifts within the regenerated shift functions, dictionaries / arities / index ranges) is no longer trusted: the "
+    "extracted deciders deps_shapeb and contract_shapeb judge every descriptor of every case (see ASSUMPTIONS)",
 ]
 ASSUMPTIONS = [
     "theorems about run_c01 (C01_run_correct, C01_rounds_correct) assume per descriptor (1) deps_shape — the declared "
     "dependencies are the rule's children in order and every declared shift is at most the one the regenerated shift "
-    "functions compute (decidable; checked once, outside the check, on the descriptors of 1050 generated cases — 13000 "
-    "descriptors of forms 0, 1, 3, 6, 7; forms 2, 4, 5 did not occur — no violation) and "
-    "(2) rule_contract — the hypotheses of the C09 theorems stated for the TRUE tables: well-formed extra_parameters "
-    "dictionaries, the minimum_size/is_atom contract (Vanish), non-negative counts and statistics, and the "
-    "genuineness identity of the constructor (union_genuine / product_genuine); verified classes: the table handed to "
-    "the model is good up to the computed size. Nobody proves a strategy genuine: on the word universes it is implied "
-    "only by the oracle's comparison with brute force (n <= 8)",
+    "functions compute — and (2) rule_contract. Both are now EVALUATED ON EVERY COMPARED CASE by the extracted model "
+    "(run_c01d = run_c01 + verdicts, C01_run_extends): deps_shapeb (C01_deps_shape_decided: an EXACT decider, verdict 0 means deps_shape is false) on every descriptor — the "
+    "harness claims verdict 1 for every descriptor describe() builds, the verdicts are part of the compared output, so "
+    "a descriptor outside deps_shape is a model/implementation mismatch on that case — and contract_shapeb, the "
+    "DECIDABLE PART of rule_contract (C01_rule_contract_from_parts: well-formed extra_parameters dictionaries "
+    "kid_wf/flip_ok/wf_dict of the composed path dictionary, arities npar of the class / the original parent / every "
+    "child against len(extra_parameters) sent by the harness, idx in range and the flipped child being the class "
+    "itself, >= 1 resp. >= 2 children, minimum sizes >= 0, the vpos/kpos flag conditions for the candidate flags_of, "
+    "shape of a verified class's table), counted by extra_checks (`covered_by_theorem: k of n`, with a required "
+    "minimum). MEASURED (quick tier, seeds 0-2): deps_shapeb = 1 on every descriptor and contract_shapeb = 1 on every class of 5837 of 5837 / 5839 of 5839 / 5844 of 5844 compared specifications (70470 / 69891 / 70295 classes; forms 0, 1, 3, 4, 6, 7 and one Complement; the excluded shapes listed in the next item did not occur); extra_checks requires 97% of the specifications and 99% of the classes of the retained cases (all cases of the quick tier, the first 20000 of the thorough tier; the deps_shapeb verdicts are compared on every case of both tiers). "
+    "What stays a HYPOTHESIS is the SEMANTIC part of rule_contract (contract_sem; C01_rule_contract_semantic_part shows "
+    "the split loses nothing): the TRUE tables satisfy the constructor's identity (union_genuine / product_genuine), "
+    "the minimum_size/is_atom contract (Vanish), the siblings of a Quotient have an object at their minimum sizes "
+    "(hprod <> 0), a verified class's table MEANS the true one; plus T_ok and canonical true tables. Nobody proves a "
+    "strategy genuine: on the word universes the semantic part is implied only by the oracle's comparison of every "
+    "class's terms with brute force (n <= 8), on every case",
     "not covered by rule_contract (would stay hypotheses): a Quotient whose parent has no parameter while a child has "
     "one; a Complement/Quotient with a sibling that is itself counted by a Complement (entry-wise assertion of the "
     "model on raw tables); constructors other than DisjointUnion/CartesianProduct and their reverses",
     "C01_spec_correct / _unique_solution / _choice_independent / pipeline theorems: productivity (pumps) of the keys "
-    "of the RETURNED (grouped) specification is a hypothesis except along the forest pipeline, whose Hfound hypothesis "
-    "(every extracted key was turned back into a rule with that key) is a contract on ForestRuleExtractor._find_rule "
-    "checked by a C11 extra check on a few fixed searches only; inside C01 the only per-instance productivity signal is "
-    "the model's status `stuck` (C01_stuck_not_productive_partial: no exception, non-negative declared shifts => a "
-    "stuck class does not pump)",
+    "of the RETURNED (grouped) specification is a hypothesis except along the forest pipeline. The pipeline's Hfound "
+    "hypothesis is now the form ForestRuleExtractor.rules() really guarantees (Spec/EvalDrop.v `drops`): every "
+    "extracted key has a rule in the (UNGROUPED) specification whose declared children-with-shifts are the key's "
+    "children minus children that are EMPTY classes - rules() hands out rule.to_equivalence_rule() for a union whose "
+    "other children are empty and leaves the rule of an empty class to be added lazily. Replayed on 2000 forest / "
+    "forest_noreverse searches of this generator (1989 found): the old literal form (same children) fails on 232, "
+    "the new form on none, every dropped child is an empty class with its own child-less extracted key. It is still a "
+    "hypothesis (no theorem derives it from the C11 models of _find_rule/rules(), which are over other key types) and "
+    "it is NOT evaluated by this check; the grouped object is related to the ungrouped keys by C02 "
+    "(C02_object_root_pumps, C02_descriptors_declare_R1, C02_object_counts_partial). Inside C01 the only per-instance "
+    "productivity signal is the model's status `stuck` (C01_stuck_not_productive_partial: no exception, non-negative "
+    "declared shifts => a stuck class does not pump)",
     "verified classes: the table handed to the model is the rule's own get_terms (oracle by hypothesis); the oracle "
     "compares it with brute force",
 ]
@@ -232,12 +250,14 @@ def impl(case):
         spec = runs.search(case)["spec"]
     out = {"found": spec is not None}
     if spec is None:
-        out["out"] = [[], []]
+        out["out"] = [[], [], []]
         out["descs"] = []
         return out
     descs, classes, extra = describe(spec)
     out["descs"] = descs
     out["extra"] = extra
+    # number of statistics of every class (npar of the contracts; input of the decider contract_shapeb)
+    out["npar"] = [len(getattr(c, "extra_parameters", ())) for c in classes]
     levels, status, truth, errors = [], [], [], []
     for c in classes:
         rule = spec.get_rule(c)
@@ -251,7 +271,9 @@ def impl(case):
             status.append([2, 1])
         levels.append(lv)
         truth.append([_truth(c, n) for n in range(NMAX + 1)])
-    out["out"] = [levels, status]
+    # third field: the verdicts of deps_shapeb CLAIMED for the descriptors describe() built (all 1); the extracted
+    # decider's verdicts are compared with it on every case, so a descriptor outside deps_shape is a mismatch
+    out["out"] = [levels, status, [1] * len(classes)]
     out["truth"] = truth
     out["errors"] = errors
     # with statistics count_objects_of_size wants a value for every parameter: the total is the sum of the terms
@@ -265,14 +287,16 @@ def impl(case):
 
 
 def encode_with(case, res):
-    return [NMAX, NMAX + res.get("extra", 0), res.get("descs", [])]
+    return [NMAX, NMAX + res.get("extra", 0), res.get("descs", []), res.get("npar", [])]
 
 
 def canon_model(mo):
-    levels, status = mo
+    levels, status, deps_bits = mo[0], mo[1], mo[2]
     # the model marks errors with the constructor's code; the implementation side only says "raised"
     status = [[2, 1] if s[0] == 2 else s for s in status]
-    return [levels, status]
+    # mo[3] (contract_shapeb per class) and mo[4], mo[5] (the flag candidate) are not compared: a class outside the
+    # decidable part of rule_contract is a case C01_run_correct is not claimed for; extra_checks counts them
+    return [levels, status, deps_bits]
 
 
 def oracle(case, res):
@@ -289,6 +313,79 @@ def oracle(case, res):
         if lv != tr:
             return "class %d of the specification: terms %r, brute force %r" % (i, lv, tr)
     return None
+
+
+# ---------------------------------------------------------------- coverage of the theorems about run_c01
+# C01_run_correct(_decided) is claimed for a compared specification only if the extracted deciders say 1 for every
+# descriptor: deps_shapeb (compared on every case through `out`) and contract_shapeb (counted here).  The minimum is
+# the measured fraction (seeds 0-2) with a margin: a generator drifting away from the theorem fails the check.
+MIN_COVERED_SPECS = 0.97
+MIN_COVERED_CLASSES = 0.99
+_FORM_NAMES = {0: "union", 1: "product", 2: "complement", 3: "quotient", 4: "equiv", 5: "equiv_of_reverse", 6: "path",
+               7: "verified"}
+
+
+def _theorem_coverage(ctx):
+    """re-runs the extracted run_c01d on every retained case with a specification and reads the verdict fields
+    (field 2: deps_shapeb per descriptor, field 3: contract_shapeb per class)"""
+    import multiprocessing as mp
+    import os
+
+    from harness import core
+
+    name = "covered_by_theorem C01_run_correct_decided (deps_shapeb and contract_shapeb = 1 on every class)"
+    binary = os.path.join(core.WORK, ID, "ocaml", "model")
+    if not os.path.exists(binary):
+        return [(name, False, "no extracted model")]
+    idx, encs = [], []
+    for i, (case, (r, _, _)) in enumerate(zip(ctx.cases, ctx.impl_res)):
+        if isinstance(r, dict) and r.get("found") and r.get("descs") and "exception" not in r:
+            idx.append(i)
+            encs.append(encode_with(case, r))
+    if not encs:
+        return [(name, False, "no specification among the retained cases")]
+    with mp.get_context("fork").Pool(core.NCPU) as pool:
+        got = core.run_model(binary, encs, pool)
+    n_spec = n_cov = n_cls = n_cls_cov = n_deps_bad = 0
+    by_form, first_bad, first_deps_bad = {}, None, None
+    for i, mo in zip(idx, got):
+        if isinstance(mo, dict) or len(mo) < 4:
+            return [(name, False, "the model printed no verdicts: %r, failing input %s" % (
+                str(mo)[:200], json.dumps(ctx.cases[i])[:300]))]
+        descs = ctx.impl_res[i][0]["descs"]
+        n_spec += 1
+        n_cls += len(mo[3])
+        n_cls_cov += sum(mo[3])
+        if not all(mo[2]):
+            n_deps_bad += 1
+            first_deps_bad = first_deps_bad or (i, mo[2].index(0))
+        if all(mo[2]) and all(mo[3]):
+            n_cov += 1
+        for c, b in enumerate(mo[3]):
+            if not b:
+                f = _FORM_NAMES.get(descs[c][0], str(descs[c][0]))
+                by_form[f] = by_form.get(f, 0) + 1
+                first_bad = first_bad or (i, c, f)
+    detail = ("covered_by_theorem: %d of %d compared specifications (%.1f%%), %d of %d classes (%.2f%%); classes outside "
+              "the decidable part of rule_contract by form: %s" % (
+                  n_cov, n_spec, 100.0 * n_cov / n_spec, n_cls_cov, n_cls, 100.0 * n_cls_cov / n_cls,
+                  json.dumps(by_form, sort_keys=True)))
+    if first_bad:
+        i, c, f = first_bad
+        detail += "; first: class %d (%s) of %s" % (c, f, json.dumps(ctx.cases[i])[:260])
+    ok = n_cov >= MIN_COVERED_SPECS * n_spec and n_cls_cov >= MIN_COVERED_CLASSES * n_cls
+    res = [(name, ok, detail if ok else detail + "; required: %.0f%% of the specifications, %.0f%% of the classes" % (
+        100 * MIN_COVERED_SPECS, 100 * MIN_COVERED_CLASSES))]
+    d2 = "deps_shapeb = 1 on every descriptor of %d of %d specifications" % (n_spec - n_deps_bad, n_spec)
+    if first_deps_bad:
+        i, c = first_deps_bad
+        d2 += "; class %d, failing input %s" % (c, json.dumps(ctx.cases[i])[:400])
+    res.append(("deps_shape holds on every descriptor describe() built (extracted deps_shapeb)", n_deps_bad == 0, d2))
+    return res
+
+
+def extra_checks(ctx):
+    return _theorem_coverage(ctx)
 
 
 def nontrivial(case, res):
@@ -333,8 +430,16 @@ LEVEL_TEXT = (
     "size and parameter value once the fuel is large enough; C01_unique_solution / C01_choice_independent: no other "
     "solution, so two specifications satisfying the hypotheses count identically. C01_forest_pipeline_correct / "
     "_unique / _total chain C03 and C11 for RuleDBForest: a pumping answer of the (total) table-method model on the "
-    "inserted keys and the extractor's result discharge the productivity hypothesis, under Hfound (each extracted key "
-    "was turned back into a rule with exactly that key — a contract on the ungrouped keys, see ASSUMPTIONS). "
+    "inserted keys and the extractor's result discharge the productivity hypothesis, under Hfound in the form rules() "
+    "guarantees (each extracted key has a rule whose children are the key's minus EMPTY classes: `drops`, "
+    "Spec/EvalDrop.v; the keys/specification tie of C01_spec_correct & co. is weakened to inclusion accordingly). "
+    "C01_drop_form_genuine / _local + C01_forest_pipeline_total_original: the dropped children are irrelevant - if the "
+    "operator of the rule handed out is the original operator fed with the empty table at the dropped positions "
+    "(`drop_form`) and the dropped children are empty classes, genuine and local pass from the ORIGINAL rule to it. "
+    "C01_forest_pipeline_constructors: the pipeline for descriptor lists of the library's constructors with NO abstract "
+    "genuine/local hypothesis (deps_shape + rule_contract + `drops` only); C01_equivalence_form_contract / _shape / "
+    "_drops: the drop-form contract discharged for the union constructor (form-0 contract + empty siblings => form-4 "
+    "contract of rule.to_equivalence_rule(), by C09_equivalence). "
     "About the rules of the LIBRARY'S constructors (new): srule_of turns a rule descriptor as run_c01 receives it into "
     "such a rule whose operator is the C09 model's get_terms over providers. C01_srule_of_local: `local` w.r.t. the "
     "DECLARED shifts is a theorem for forms 0-7 (union, product, Complement, Quotient, both equivalence forms, path, "
@@ -350,7 +455,10 @@ LEVEL_TEXT = (
     "About the EXTRACTED function (new): C01_rounds_is_eval — every level the bottom-up evaluator computes (any fuel) "
     "equals `eval` of srule_of of the descriptors for all large fuel (raw tables, no hypothesis on the tables); "
     "C01_rounds_correct / C01_run_correct — under deps_shape and the contracts, whenever run_c01 reports a class "
-    "complete (status 0) the levels 0..N it prints are the canonical true tables; C01_run_fuel_suffices — the fuel "
+    "complete (status 0) the levels 0..N it prints are the canonical true tables; C01_run_correct_decided — the same "
+    "for the function the check extracts (run_c01d) with deps_shape and the decidable part of rule_contract replaced "
+    "by `every verdict bit printed for this case is 1` (evaluated per case: 1 on every class of every one of the 5837-5844 specifications of a quick run, seeds 0-2; a case with a 0 "
+    "verdict is a case these two theorems are not claimed for), leaving the semantic part contract_sem; C01_run_fuel_suffices — the fuel "
     "run_c01 uses reaches a fixed point; C01_stuck_not_productive_partial — with no exception and non-negative "
     "declared shifts a class reported stuck does not pump, and C01_productive_is_complete_partial — a class that pumps "
     "is reported complete (both partial: reverse product rules declare negative shifts). "
@@ -360,7 +468,8 @@ LEVEL_TEXT = (
 LEVEL_NOTE = (
     "What is NOT a theorem: that the returned specification's rules satisfy the contracts (genuineness of strategies is "
     "the documented contract, checked by brute force on the shipped universes only, n <= 8), that its classes pump "
-    "outside the forest pipeline, and that describe() reads the rule objects correctly (trusted Python). The C02 oracle "
+    "outside the forest pipeline, that the rules handed out satisfy the weakened Hfound (`drops`; replayed offline, "
+    "not evaluated per case), and that describe() reads the rule objects correctly (trusted Python). The C02 oracle "
     "runs on C02's own cases, not on C01's. Classes with extra statistics: 12% of the searches (c08_stats universes, "
     "default RuleDB only); the rest use the parameter-free word classes; C09's correspondence covers statistics at the "
     "rule level. Trusted: Coq kernel, extraction, harness."
